@@ -73,6 +73,7 @@ func newResolver(img *imagev1.Image) (resolver, *protoregistry.Files, error) {
 		if err != nil {
 			return nil, nil, err
 		}
+		makeLinkable(fdp)
 		fds.File = append(fds.File, fdp)
 	}
 	files, err := protodesc.NewFiles(fds)
@@ -80,6 +81,49 @@ func newResolver(img *imagev1.Image) (resolver, *protoregistry.Files, error) {
 		return nil, nil, err
 	}
 	return dynamicpb.NewTypes(files), files, nil
+}
+
+// maxOrdinaryNumber is the largest field number of a message that is not a message set.
+const maxOrdinaryNumber = 1<<29 - 1
+
+// makeLinkable edits fdp (a private copy, used for nothing but the resolver that decodes custom options)
+// so that protodesc accepts it: protobuf-go refuses proto1 message sets. This is this check's own, blunt
+// version of what buf does for its resolver; the images that are compared are never touched by it.
+func makeLinkable(fdp *descriptorpb.FileDescriptorProto) {
+	keep := func(exts []*descriptorpb.FieldDescriptorProto) []*descriptorpb.FieldDescriptorProto {
+		var out []*descriptorpb.FieldDescriptorProto
+		for _, e := range exts {
+			if e.GetNumber() <= maxOrdinaryNumber {
+				out = append(out, e)
+			}
+		}
+		return out
+	}
+	var msg func(m *descriptorpb.DescriptorProto)
+	msg = func(m *descriptorpb.DescriptorProto) {
+		if m.GetOptions().GetMessageSetWireFormat() {
+			m.Options.MessageSetWireFormat = nil
+		}
+		var ranges []*descriptorpb.DescriptorProto_ExtensionRange
+		for _, r := range m.GetExtensionRange() {
+			if r.GetStart() > maxOrdinaryNumber {
+				continue
+			}
+			if r.GetEnd() > maxOrdinaryNumber+1 {
+				r.End = proto.Int32(maxOrdinaryNumber + 1)
+			}
+			ranges = append(ranges, r)
+		}
+		m.ExtensionRange = ranges
+		m.Extension = keep(m.Extension)
+		for _, n := range m.GetNestedType() {
+			msg(n)
+		}
+	}
+	for _, m := range fdp.GetMessageType() {
+		msg(m)
+	}
+	fdp.Extension = keep(fdp.Extension)
 }
 
 func decodeWith(data []byte, res resolver) (*imagev1.Image, error) {
